@@ -79,7 +79,7 @@ def create_message(env: models.Env, path: list, add_comments: bool = False, with
         root = representative(with_position)
         holder["root"] = root
         err = SObj("ValidationError", {"message": SStr.atom("errmsg", free=True)})
-        return pai.Inst("validator.Validator"), [root, list(path), err, add_comments], {}
+        return models.new_validator(I), [root, list(path), err, add_comments], {}
 
     outs = I.explore("validator.Validator.create_message", make)
     if len(outs) != 1:
